@@ -294,6 +294,11 @@ def run(rep: Report, tier: str) -> None:
         _n += 1
         rep.instance("R10.5", f"ds-ds/{_lab}", nontrivial=True, sample={"interpreter": _a[1].summary() if _a[0] == "ok" else _a, "structure_visitor": _b[1].summary() if _b[0] == "ok" else _b})
         if _a[0] != "ok":
+            if sorted(_lm) == sorted(_rm):
+                _fv = P.func("vtlengine.Operators.Binary.dataset_validation")
+                rep.add(Finding("R10.5", f"R10.5/ds-ds-accept/{_lab}", _fv.module.rel, _fv.node.lineno, _fv.qualname,
+                                f"DS_1(ids {_li}, measures {_lm}) op DS_2(ids {_ri}, measures {_rm}) is rejected by semantic analysis ({_a[1]}): the operands have the same measures "
+                                f"(matched by NAME, the order of declaration is irrelevant) and identifier sets in inclusion"))
             continue  # rejected by semantic analysis: no intermediate structure is needed
         if _b[0] != "ok" or _a[1].summary() != _b[1].summary():
             _f = P.func(_sm.SV + "._build_ds_ds_binop_structure")
@@ -302,6 +307,29 @@ def run(rep: Report, tier: str) -> None:
                             f"transpiler's structure for the same intermediate result is {_b[1].summary() if _b[0] == 'ok' else _b}: an enclosing operator joins on / projects the wrong "
                             f"identifiers (nested expressions such as (DS_1 + DS_2) * DS_3 give spurious or missing datapoints)"))
     rep.floor("R10.5 shapes", _n, 6)
+    # ---- R10.8: nullability of the result measure of DS op DS = left.nullable OR right.nullable (also when the measure is renamed) ----
+    rep.rule("R10.8", "dataset-dataset operators: the result measure is nullable iff it is nullable in either operand, also for the renamed mono-measure of comparisons")
+    from sa.e6 import Unmodelled as _Unm8
+    _n8 = 0
+    for _opc, _what in (("vtlengine.Operators.Comparison.Equal", "="), ("vtlengine.Operators.Numeric.BinPlus", "+")):
+        for _ln, _rn in ((False, True), (True, False), (False, False), (True, True)):
+            _L, _R = _M.ds("DS_1", ["A"], ["M"]), _M.ds("DS_2", ["A"], ["M"])
+            _L.components["M"].nullable, _R.components["M"].nullable = _ln, _rn
+            try:
+                _a8 = _M.interpreter_binary(_opc, _L, _R, full=True)
+            except _Unm8 as e:
+                raise AnalysisError(f"R10.8: Binary validation outside the evaluator's language: {e}")
+            if _a8[0] != "ok":
+                raise AnalysisError(f"R10.8: DS_1 {_what} DS_2 rejected in the model: {_a8}")
+            _ms = [c_ for c_ in _a8[1].components.values() if c_.role == _M.roles["MEASURE"]]
+            _n8 += 1
+            rep.instance("R10.8", f"nullable/{_what}/{_ln}-{_rn}", nontrivial=True, sample={"measures": [(c_.name, c_.nullable) for c_ in _ms]})
+            if len(_ms) != 1 or _ms[0].nullable != (_ln or _rn):
+                _fa = P.func("vtlengine.Operators.Binary.apply_return_type_dataset")
+                rep.add(Finding("R10.8", f"R10.8/nullable/{_what}/{_ln}-{_rn}", _fa.module.rel, _fa.node.lineno, _fa.qualname,
+                                f"DS_1 {_what} DS_2 with M nullable={_ln} on the left and nullable={_rn} on the right: the result measure is {[(c_.name, c_.nullable) for c_ in _ms]}; it must be "
+                                f"nullable={_ln or _rn} (a null on either side gives a null result): the returned structure otherwise declares a non-nullable measure whose data has nulls"))
+    rep.floor("R10.8 cases", _n8, 8)
     # ---- R10.6: membership DS#comp: validator == structure builder == SELECT list (finite model) ----
     rep.rule("R10.6", "membership: the components semantic analysis declares == the transpiler's intermediate structure == the columns the SQL selects")
     from sa.e6 import Unmodelled as _Unm
